@@ -484,6 +484,8 @@ def main(run):
                        "selector lists (0-7 patterns incl. wrapped, repeated, non-ASCII, empty) through balance/register/balance-group/equity, via overlap / report / per-report configuration; "
                        "non-trivial = a digest was reported; distinct = distinct digests")
     run.notes.update({"stages": stages, "injected": tagc, "observations": kinds, "audit_channels": chan, "corpus_cases": sum(1 for c in cases if c["src"] != "gen")})
+    import t04_text   # extra stage (extension T04): the metadata TEXT block against MetaText.v, byte for byte
+    t04_text.run_text_stage(run, n=(30 if run.tier == "quick" else 400))
     return run.finish(info)
 
 
